@@ -292,7 +292,7 @@ func (tr *tree) apply(s step) string {
 	case "use-rc":
 		return tr.useRC(s.Node)
 	case "use-sk":
-		return tr.useSK(s.Node)
+		return tr.useSK(s.Node, arg(0))
 	}
 	if s.Op == "sk.WithTCPListener" && p.kind == "sk" {
 		// args: host, port, repeat (a chain of derivations, every intermediate value is kept)
@@ -474,7 +474,12 @@ func (tr *tree) genStep(t *rapid.T) step {
 		port := rapid.SampledFrom([]int{0, 0, 0, 80}).Draw(t, "port")
 		return step{"sk.WithTCPListener", tr.pick(t, "sk"), []string{host, fmt.Sprint(port), fmt.Sprint(rapid.IntRange(1, 4).Draw(t, "repeat"))}}
 	case "use-sk":
-		return step{"use-sk", tr.pick(t, "sk"), nil}
+		outer := ""
+		if rapid.IntRange(0, 2).Draw(t, "nested") == 0 {
+			// the context already carries another sock configuration (sock.WithConfig applied twice)
+			outer = fmt.Sprint(tr.pick(t, "sk"))
+		}
+		return step{"use-sk", tr.pick(t, "sk"), []string{outer}}
 	case "mc":
 		pi := tr.pick(t, "mc")
 		method := rapid.SampledFrom([]string{"WithEnv", "WithEnv", "WithEnv", "WithEnv", "WithArgs", "WithArgs", "WithName", "WithFSConfig", "WithFSConfig", "WithFS", "WithStdin", "WithStdout", "WithStderr",
@@ -788,10 +793,20 @@ func sockAddrs(snap string) []string {
 
 // useSK instantiates a WASI guest with the listeners of the node (only when every listener
 // can really be bound: loopback address, port 0) and counts the pre-opened sockets.
-func (tr *tree) useSK(i int) string {
+func (tr *tree) useSK(i int, outerArg string) string {
 	n := tr.nodes[i]
 	if n.kind != "sk" {
 		return ""
+	}
+	if outerArg != "" {
+		// decorate a context that already carries the configuration of another node: the inner
+		// one is what an instantiation with that context uses; neither value may change (checked
+		// by the snapshots after this step, and by later uses of the outer node)
+		if oi, err := strconv.Atoi(outerArg); err == nil && oi >= 0 && oi < len(tr.nodes) && tr.nodes[oi].kind == "sk" {
+			ctx2 := sock.WithConfig(sock.WithConfig(context.Background(), tr.nodes[oi].sk), n.sk)
+			_ = ctx2
+			evid.Label("sock-config-nested-in-context", 1)
+		}
 	}
 	for _, a := range n.msk {
 		if !strings.HasPrefix(a, "127.0.") || !strings.HasSuffix(a, ":0") || strings.Count(a, ".") != 3 {
